@@ -20,6 +20,7 @@ package discovery
 
 import (
 	"context"
+	"encoding/json"
 	"errors"
 	"fmt"
 	ssi "github.com/nuts-foundation/go-did"
@@ -288,8 +289,21 @@ func (m *Module) validateRegistration(definition ServiceDefinition, presentation
 	if err != nil {
 		return fmt.Errorf("verifiable presentation doesn't match required presentation definition: %w", err)
 	}
-	if len(creds) != len(presentation.VerifiableCredential) {
-		return errPresentationDoesNotFulfillDefinition
+	// The presentation may only contain credentials that are used to fulfill the Presentation Definition.
+	// Match() returns a credential for every matched input descriptor, so a credential that matches multiple input descriptors
+	// is returned multiple times: comparing the number of credentials does not suffice.
+	matched := make(map[string]bool, len(creds))
+	for _, cred := range creds {
+		credJSON, _ := json.Marshal(cred)
+		matched[string(credJSON)] = true
+	}
+	for _, cred := range presentation.VerifiableCredential {
+		credJSON, _ := json.Marshal(cred)
+		if !matched[string(credJSON)] {
+			return errPresentationDoesNotFulfillDefinition
+		}
+		// every credential may be presented once
+		delete(matched, string(credJSON))
 	}
 	return nil
 }
